@@ -213,6 +213,33 @@ def c18_extra(ROOT, tier, seed, sh, WORK):
     return out
 
 
+def c20_extra(ROOT, tier, seed, sh, WORK):
+    """generic.Resource[T] against World.Resources() on twin worlds, with changes made behind
+    the mapper's back (Resources().Add/Remove, World.Reset)."""
+    import os, re, subprocess
+    out = {'violations': []}
+    sh("cd generic_harness && cp /repo/go.sum . 2>/dev/null; go build -o generic_harness .", timeout=900)
+    n = 20 if tier == 'quick' else 400
+    G = os.path.join(ROOT, 'generic_harness', 'generic_harness')
+    p = subprocess.run([G, '-seed', str(seed % 100000), '-n', str(n), '-section', 'resource'], capture_output=True, text=True, timeout=3000)
+    m = re.search(r'SUMMARY cases=(\d+) fails=(\d+)', p.stdout)
+    if not m:
+        rp = os.path.join(ROOT, 'replays', 'C20-harness.txt')
+        open(rp, 'w').write(p.stdout[-3000:] + p.stderr[-3000:])
+        out['violations'].append({'replay': rp, 'cmd': 'generic', 'classes': ['generic'], 'chk': 'harness produced no summary'})
+        return out
+    kinds = {}
+    for l in p.stdout.splitlines():
+        if l.startswith('FAIL '):
+            kinds.setdefault(re.sub(r'iter=\d+', 'iter=N', l)[:90], []).append(l)
+    for key, lines in kinds.items():
+        rp = os.path.join(ROOT, 'replays', 'C20-' + re.sub(r'[^A-Za-z0-9]+', '_', key)[:60] + '.txt')
+        open(rp, 'w').write(f"# generic_harness -seed {seed % 100000} -n {n} -section resource\n" + "\n".join(lines[:40]) + "\n")
+        out['violations'].append({'replay': rp, 'cmd': 'generic', 'classes': ['generic'], 'chk': lines[0][:300]})
+    out['generic_resource_cases'] = int(m.group(1))
+    return out
+
+
 PROPS = {
     'C01': {
         'budget': _merge(_p('core', 220, 4000), _p('mixed', 80, 2000)),
@@ -336,7 +363,7 @@ PROPS = {
         'budget': _merge(_p('registry', 160, 3000), _p('lock', 60, 500), _p('mixed', 40, 500)),
         'projection': [(r'res:REG', None), (r'panic_(missing|unexpected):REG', None),
                        (r'view_(mask|vals)', 'many_comps'), (r'panic_unexpected:.*', 'many_comps')],
-        'chk': [r'Component'],
+        'chk': [r'Component', r'(Has|Get)\((1[6-9]|[2-9]\d|\d{3})\)'],   # wrong answers for IDs beyond the first layout chunk
         'own_ops': {'REG'},
         'rule': "seeded histories (profile registry): registrations interleaved with table creation up to MaskTotalBits types of 8 shapes; ComponentInfo/ComponentIDs checked on every registration",
     },
@@ -357,8 +384,9 @@ PROPS = {
         'rule': "generic_harness: for every arity 0-12, twin worlds driven through MapN/FilterN/QueryN/Map/Exchange/Resource and through the documented ID-based equivalents; handles, counts, events, full dumps, pointer identity of every Get position, builder-call sequences before and between queries, registered or not",
     },
     'C19': {
-        'budget': _merge(_p('mixed', 40, 400)),
+        'budget': _merge(_p('mixed', 40, 400), _p('dump', 80, 800)),
         'projection': [],
+        'chk': [r'changed world'],
         'own_ops': {'QSCAN', 'RM', 'XCHG', 'NEW'},
         'extra': c19_extra,
         'level': 'proof',
@@ -369,7 +397,8 @@ PROPS = {
         'projection': [(r'res:RES.*', None), (r'panic_(missing|unexpected):RES.*', None)],
         'chk': [r'Resource'],
         'own_ops': {'RESADD', 'RESRM', 'RESGET', 'RESHAS'},
-        'rule': "seeded histories (profile res): Add/Remove/Get/Has over several resource types interleaved with entity operations, locks and Reset; pointer identity checked on every Get",
+        'extra': c20_extra,
+        'rule': "seeded histories (profile res): Add/Remove/Get/Has over several resource types interleaved with entity operations, locks and Reset; pointer identity checked on every Get; plus generic.Resource[T] against World.Resources() on twin worlds with changes behind the mapper's back",
     },
 }
 
